@@ -139,6 +139,30 @@ def run(tier):
                       "input_text": raw.decode("utf-8", "replace")[:400], "detail": f["detail"][:1500], "count_in_run": len(fs),
                       "explanation": "this call does not return to its caller with a value or an error (panic / fatal runtime error / no progress)"},
                      "total_%s_%s_%s" % (f["kind"], re.sub(r"\W+", "_", f["entry"])[:30], re.sub(r"\W+", "_", sh[3])[:30]))
+    # very large nested / chained inputs inside the documented limits (10 MiB, 1M tokens): only through a few entry points
+    # (a fatal stack overflow or out-of-memory kills the worker and is attributed to the call)
+    reps = 300000 if tier == "quick" else 900000
+    big = [b"SELECT * FROM t WHERE " + b"NOT " * reps + b"a",
+           b"SELECT " + b"(" * reps + b"a" + b")" * reps,
+           b"SELECT " + b"f(" * (reps // 2) + b"a" + b")" * (reps // 2),
+           b"SELECT a FROM t WHERE " + b" OR\n".join([b"a = 1"] * (reps // 4)),
+           b"SELECT " + b" + ".join([b"a"] * (reps // 4)) + b" FROM t",
+           b"SELECT * FROM " + b"(SELECT * FROM " * (reps // 8) + b"t" + b")" * (reps // 8),
+           b"SELECT " + b"CASE WHEN a THEN " * (reps // 8) + b"1" + b" END" * (reps // 8)]
+    bfind, bcalls = [], 0
+    for only in ("gosqlx.Validate", "gosqlx.ParseWithRecovery", "tree:", "gosqlx.Format"):
+        f2, c2 = totalrun.run_all(big, only=only, workers=len(big), stall_s=180, mem_gb=10)
+        bfind += f2; bcalls += c2
+    for f in bfind:
+        sh = shape(f)
+        raw = big[f["id"]]
+        n_new += 1
+        rp.violation({"kind": "oracle", "failure": f["kind"], "entry": f["entry"], "variant": f.get("variant"),
+                      "input_text": raw[:60].decode() + "... (%d bytes, generated: see lib/c01.py 'big' index %d)" % (len(raw), f["id"]), "big_index": f["id"], "reps": reps,
+                      "detail": f["detail"][:1500], "explanation": "a large but in-limit input makes this call die or stall (stack exhaustion / out of memory / no progress)"},
+                     "total_big_%s_%d_%s" % (f["kind"], f["id"], re.sub(r"\W+", "_", f["entry"])[:20]))
+    rp.cov["large_input_calls"] = bcalls
+    rp.cov["large_input_bytes"] = [len(b) for b in big]
     rp.obligation("oracle: %d calls (%d inputs x every entry point) returned a value or an error" % (calls, len(ins)), n_new == 0)
     rp.cov["evaluations"] = calls
     rp.cov["inputs"] = len(ins)
@@ -157,6 +181,15 @@ def run(tier):
 def replay(path):
     import base64
     d = json.load(open(path))
+    if d.get("big_index") is not None:
+        reps = d["reps"]
+        big = {0: b"SELECT * FROM t WHERE " + b"NOT " * reps + b"a", 1: b"SELECT " + b"(" * reps + b"a" + b")" * reps,
+               2: b"SELECT " + b"f(" * (reps // 2) + b"a" + b")" * (reps // 2), 3: b"SELECT a FROM t WHERE " + b" OR\n".join([b"a = 1"] * (reps // 4)),
+               4: b"SELECT " + b" + ".join([b"a"] * (reps // 4)) + b" FROM t", 5: b"SELECT * FROM " + b"(SELECT * FROM " * (reps // 8) + b"t" + b")" * (reps // 8),
+               6: b"SELECT " + b"CASE WHEN a THEN " * (reps // 8) + b"1" + b" END" * (reps // 8)}[d["big_index"]]
+        fs, calls = totalrun.run_all([big], only=d.get("entry", "").split("(")[0] or None, workers=1, stall_s=240, mem_gb=10)
+        print(json.dumps(fs)[:800], "calls", calls)
+        return 1 if fs else 0
     if d.get("input_b64") is not None:
         raw = base64.b64decode(d["input_b64"])
         fs, calls = totalrun.run_all([raw], only=d.get("entry", "").split("(")[0] or None, workers=1, stall_s=30)
